@@ -876,6 +876,27 @@ def in_equal_twins_class(descr, spec) -> bool:
     return False
 
 
+def first_append_duplicated(descr, impl_V_facts):
+    """Python semantics of the very first write: objects built without constructor contents, first operation asserts a fact into a LIST
+    field once and the history never asserts it again -> the field holds that element exactly once, whatever inference does."""
+    fam = families()[descr["fam"]]
+    if ctor_edges(descr["pop"]) or not descr["ops"] or descr["ops"][0][0] == "drop":
+        return None
+    how, s, f, ts = descr["ops"][0]
+    all_edges = [(a, fam.canon[b], c) for a, b, c in edges_of(descr)]
+    for t_ in ts:
+        e = (s, fam.canon[f], t_)
+        if fam.kind[f] == "list" and all_edges.count(e) == 1 and list(impl_V_facts).count(e) > 1:
+            return e
+    return None
+
+
+def in_subclass_duplicate_class(descr) -> bool:
+    """K_subclass_keys: the asserting object is an instance of a SUBCLASS of the class that declares the descriptor"""
+    fam = families()[descr["fam"]]
+    return any(how != "drop" and fam.classes[descr["pop"][s][0]] is not fam.classes[fam.flds[f][0]] for how, s, f, ts in descr["ops"])
+
+
 def fields_agree(descr, impl_V, spec_set) -> bool:
     """C15_list_fields_agree / C15_set_fields_agree: list and single-valued fields hold exactly the closure's relations, by identity;
     a set field holds only relations of the closure and, for each of them, an element ==-equal to the target (a Python set cannot
@@ -922,14 +943,17 @@ def decide(rep: core.Report, descr, impl, model, spec, model_ok: bool, stats) ->
     if not fields_agree(descr, sorted(set(facts(impl_V))), spec_set):
         problems.append("field contents differ from the closure of the asserted facts (list and single-valued fields object by object, "
                         "set fields up to ==)")
+    dup = first_append_duplicated(descr, facts(impl_V))
+    if dup:
+        problems.append(f"a single append / add of {dup} as the first operation on fresh objects leaves the element more than once in the list field")
     if model_ok:
         if model == -1:
             rep.oblige("model:fuel", False, f"model ran out of fuel on {descr}")
         else:
             mE, mV = live(norm(model[0])), live(norm(model[1]))
-            # with subclass keys the field store of the model is keyed like the graph while the objects' fields go by name: only the
-            # graph is compared with the model there (key by key); the fields are compared with the Spec
-            same = (mE == impl_E) and (keyed or mV == impl_V)
+            # with subclass keys the graph is compared key by key; the field store of the model is keyed like the graph while the objects'
+            # fields go by name, so it is compared after projecting keys to public fields (as multisets)
+            same = (mE == impl_E) and (sorted(facts(mV)) == sorted(facts(impl_V)) if keyed else mV == impl_V)
             if not problems and not same:
                 stats["model_mismatch"] += 1
                 rep.oblige("correspondence:model", False,
@@ -1040,6 +1064,18 @@ def run(tier: str, seed: int, replay=None) -> int:
         if (cname in open_names and open_names[cname].cls == "K_ctor_halfbuilt" and impl.get("build_failed")
                 and d.get("expect_exc") and (impl["exc"] or "").startswith(d["expect_exc"])):
             rep.known(open_names[cname])       # the constructor raises exactly the recorded error (no model of __init__ order)
+            continue
+        keyed_same = False
+        if families()[d["fam"]].has_subclass_keys() and model_ok and model != -1 and not impl["exc"] and not impl.get("build_failed"):
+            c_ = families()[d["fam"]].canon
+            pr = lambda es: sorted((a, c_[b], c) for a, b, c in es)
+            keyed_same = norm(model[0]) == norm(impl["E"]) and pr(norm(model[1])) == pr(norm(impl["V"]))
+        if cname in open_names and open_names[cname].cls == "K_subclass_keys" and keyed_same:
+            rep.known(open_names[cname])
+            continue
+        if (keyed_same and in_subclass_duplicate_class(d) and v["problems"] and all("more than once in the list field" in x for x in v["problems"])
+                and any(f.cls == "K_subclass_keys" for f in findings if f.kind == "open")):
+            kf_instances["K_subclass_keys"] = kf_instances.get("K_subclass_keys", 0) + 1     # instance of C15-e, exactly as the key-level model predicts
             continue
         if (model_same and in_equal_twins_class(d, spec) and any(f.cls == "K_equal_twins" for f in findings if f.kind == "open")):
             kf_instances["K_equal_twins"] = kf_instances.get("K_equal_twins", 0) + 1    # instance of C15-b, exactly as the model predicts
